@@ -13,10 +13,11 @@ import (
 // DET engine: determinism lint over the consensus-reachable part of canopy.
 
 type detSet struct {
-	c     *ctx
-	roots []*ssa.Function
-	reach map[*ssa.Function]bool // canopy functions reachable from the roots (cut at sinks)
-	list  []*ssa.Function
+	efMemo map[*ssa.Function]bool
+	c      *ctx
+	roots  []*ssa.Function
+	reach  map[*ssa.Function]bool // canopy functions reachable from the roots (cut at sinks)
+	list   []*ssa.Function
 }
 
 // isObservabilitySink: metrics and logging do not feed consensus results; the walk does not descend into them.
@@ -225,6 +226,17 @@ func (d *detSet) classifyMapRange(f *ssa.Function, rng *ssa.Range) (class, why s
 					continue
 				}
 				name := calleeName(cc)
+				// a call that can only compute (no effect but its results, which are tracked as iteration data) is neutral
+				if readOnlyInvoke(cc) {
+					notes = append(notes, "reads through "+name)
+					continue
+				}
+				if sc := cc.StaticCallee(); sc != nil && d.effectFree(sc, 0) {
+					if _, isGo := in.(*ssa.Go); !isGo {
+						notes = append(notes, "computes with "+name+" (effect-free)")
+						continue
+					}
+				}
 				keyed := false
 				for _, a := range cc.Args {
 					if iter[a] {
@@ -639,6 +651,141 @@ func firstPos(in ssa.Instruction) (pos token.Pos) {
 		}
 	}
 	return
+}
+
+// localAddr: the address points into memory allocated by this function (a local, a fresh make/new, or inside one).
+func localAddr(v ssa.Value) bool {
+	for i := 0; i < 8; i++ {
+		switch x := v.(type) {
+		case *ssa.Alloc, *ssa.MakeSlice, *ssa.MakeMap:
+			return true
+		case *ssa.FieldAddr:
+			v = x.X
+		case *ssa.IndexAddr:
+			v = x.X
+		case *ssa.Slice:
+			v = x.X
+		case *ssa.Phi:
+			for _, e := range x.Edges {
+				if !localAddr(e) {
+					return false
+				}
+			}
+			return len(x.Edges) > 0
+		default:
+			return false
+		}
+	}
+	return false
+}
+
+// pureStd: standard-library functions without effects on their arguments or on global state.
+func pureStd(f *ssa.Function) bool {
+	if f == nil || f.Pkg == nil {
+		return false
+	}
+	switch f.Pkg.Pkg.Path() {
+	case "bytes":
+		switch f.Name() {
+		case "Equal", "Compare", "Clone", "HasPrefix", "HasSuffix", "Contains", "Index", "TrimPrefix", "TrimSuffix":
+			return true
+		}
+	case "strings":
+		return f.Signature.Recv() == nil
+	case "strconv", "math", "math/bits", "unicode/utf8", "cmp":
+		return true
+	case "slices":
+		return strings.HasPrefix(f.Name(), "Contains") || strings.HasPrefix(f.Name(), "Index") || f.Name() == "Equal" || f.Name() == "Clone"
+	case "encoding/binary":
+		return strings.HasPrefix(f.Name(), "Uint") // reads
+	}
+	return false
+}
+
+// readOnlyInvoke: interface methods that only read (store getters).
+func readOnlyInvoke(cc *ssa.CallCommon) bool {
+	if !cc.IsInvoke() {
+		return false
+	}
+	rt := types.TypeString(cc.Value.Type(), shortQual)
+	switch cc.Method.Name() {
+	case "Get":
+		return strings.HasSuffix(rt, "lib.RStoreI") || strings.HasSuffix(rt, "lib.RWStoreI") || strings.HasSuffix(rt, "lib.StoreI") || strings.HasSuffix(rt, "store.TxnReaderI")
+	case "Bytes", "String", "Equals", "Address":
+		return true
+	}
+	return false
+}
+
+// effectFree: calling f cannot change memory visible to the caller or to anyone else: it stores only into memory it
+// allocated itself, updates no foreign map, sends/spawns nothing and calls only effect-free functions. What it computes
+// reaches the caller through its results only.
+func (d *detSet) effectFree(f *ssa.Function, depth int) bool {
+	f = origin(f)
+	if v, ok := d.efMemo[f]; ok {
+		return v
+	}
+	if pureStd(f) {
+		return true
+	}
+	if len(f.Blocks) == 0 || depth > 3 {
+		return false
+	}
+	if d.efMemo == nil {
+		d.efMemo = map[*ssa.Function]bool{}
+	}
+	d.efMemo[f] = false // recursion: assume the worst
+	ok := true
+	for _, b := range f.Blocks {
+		for _, in := range b.Instrs {
+			switch x := in.(type) {
+			case *ssa.Store:
+				if !localAddr(x.Addr) {
+					ok = false
+				}
+			case *ssa.MapUpdate:
+				if !localAddr(x.Map) {
+					ok = false
+				}
+			case *ssa.Send, *ssa.Go, *ssa.Defer, *ssa.Panic:
+				ok = false
+			case *ssa.Call:
+				cc := x.Common()
+				if bi, isB := cc.Value.(*ssa.Builtin); isB {
+					if bi.Name() == "copy" && !localAddr(cc.Args[0]) {
+						ok = false
+					}
+					if bi.Name() == "delete" && !localAddr(cc.Args[0]) {
+						ok = false
+					}
+					if bi.Name() == "append" && len(cc.Args) > 0 {
+						// appending to a foreign slice may write into its spare capacity
+						if _, fresh := cc.Args[0].(*ssa.Const); !fresh && !localAddr(cc.Args[0]) {
+							if _, isSlice := cc.Args[0].(*ssa.Slice); !isSlice {
+								ok = false
+							}
+						}
+					}
+					continue
+				}
+				if readOnlyInvoke(cc) {
+					continue
+				}
+				sc := cc.StaticCallee()
+				if sc == nil || !d.effectFree(sc, depth+1) {
+					ok = false
+				}
+			}
+			if !ok {
+				break
+			}
+		}
+		if !ok {
+			break
+		}
+	}
+	d.efMemo[f] = ok
+	return ok
 }
 
 // isPureLeaf: a function that only reads (no stores outside locals, no map updates, no calls but builtins).
